@@ -26,7 +26,7 @@ CLAIMED = {
    technique="deterministic simulation of the process environment (argv, cwd, files present, exit status, effect ordering in the journal) against a reference model of option resolution; complete enumeration of the documented-name table",
    engine="simproc+simbin"),
  "C15": dict(level="exploration", design="§6 C15",
-   text="Seeded histories of library calls compared with a fresh-process baseline: chains of 10 (every eighth: 80) scenarios run without reset in one child process; a scenario is 2-5 tasks on real OS threads of which exactly one runs at a time -- at call granularity (baton order is data) or, in a third of the scenarios, interleaved at guarded yield points inside the AST walker, the line conversion and the simulated file-system calls with a seeded switch probability. Operations: direct per-file calls with arbitrary file numbers, repeated calls, directory walks embedding the same texts among varying siblings (also siblings sharing a bare name), equal-length twins, texts nested 32 levels deep. Every observed verdict must equal the verdict of one call in a fresh process. Miri adds truly concurrent calls with data-race detection.",
+   text="Seeded histories of library calls compared with a fresh-process baseline: chains of 10 (every eighth: 80) scenarios run without reset in one child process; a scenario is 2-5 tasks on real OS threads of which exactly one runs at a time -- at call granularity (baton order is data) or, in a third of the scenarios, interleaved at guarded yield points inside the AST walker, the line conversion and the simulated file-system calls with a seeded switch probability. Operations: direct per-file calls with arbitrary file numbers, repeated calls, directory walks embedding the same texts among varying siblings (also siblings sharing a bare name), equal-length twins, texts nested 32 levels deep, files whose contracts repeat each other's names, white-space-only placeholder siblings. Every observed verdict must equal the verdict of one call in a fresh process. Miri adds truly concurrent calls with data-race detection.",
    note="Call-granular interleaving (one thread runs at a time) natively; preemptive interleaving, data races and seeded RandomState only in the simmiri tier. Baseline trusts a single call in a fresh process.",
    technique="deterministic simulation: seeded baton scheduling of real threads down to yield points inside library calls, differential oracle against a fresh-process single-call baseline, Miri-seeded preemptive schedules",
    engine="simproc+simbin+simmiri"),
